@@ -234,6 +234,21 @@ class Crate:
                 if p['pat'].get('name') == nm:
                     return self.crate_type_in(mod, p['ty'])
             return self.local_types(q).get(nm)
+        if k == 'StructLit':
+            ty = self.resolve(mod, node['path']['segs'])
+            if node['path']['segs'] == ['Self'] and f.get('impl_of'):
+                ty = self.resolve(mod, [f['impl_of']])
+            return ty if ty in self.structs or ty in self.enums else None
+        if k == 'Closure':
+            return self.static_type(node['body'], q)
+        if k == 'Block' and node.get('stmts'):
+            last = node['stmts'][-1]
+            if last.get('k') == 'ExprStmt' and not last.get('semi'):
+                return self.static_type(last['expr'], q)
+            return None
+        if k == 'MethodCall' and node['method'] in ('or_insert', 'or_insert_with', 'unwrap_or', 'unwrap_or_else', 'get_or_insert', 'get_or_insert_with') and node['args']:
+            # `map.entry(k).or_insert_with(|| Record { .. })`: the value has the type of the default
+            return self.static_type(node['args'][0], q)
         if k == 'Field':
             bt = self.static_type(node['base'], q)
             st = self.structs.get(bt) if bt else None
